@@ -150,24 +150,6 @@ unsafe fn va_allocate_over(layout: Layout) -> Result<NonNull<[u8]>, AllocError> 
 }
 
 
-/// Poison a block that is being returned to the base allocator (the allocator owns it during `deallocate`).
-/// Measured: Kani 0.68 / CBMC 6.11 do NOT flag a read through a pointer into a block released with
-/// `std::alloc::dealloc` ("dereference failure: deallocated dynamic object" comes back SUCCESS and the read returns
-/// the old value), so "a returned block is never read afterwards" (C05) is invisible to the pointer checks. With the
-/// poison, a later read of the block (an allocator handle or a chunk header that lived inside it) yields 0xDD bytes:
-/// the handle check in `VAStateful::deallocate` fails, and a chunk-list pointer read from it is an invalid pointer.
-#[inline(always)]
-unsafe fn scrub(p: *mut u8, n: usize) {
-    macro_rules! arms {
-        ($($k:literal)*) => {
-            match n {
-                $($k => unsafe { core::ptr::write_bytes(p, 0xDD, $k) },)*
-                _ => {}
-            }
-        };
-    }
-    arms!(48 56 64 72 80 88 96 104 112 120 128 136 144 152 160 168 176 184 192 200 208 216 224 232 240 248 256 264 272 280);
-}
 
 unsafe fn va_deallocate(ptr: NonNull<u8>, layout: Layout) {
     unsafe {
@@ -182,7 +164,6 @@ unsafe fn va_deallocate(ptr: NonNull<u8>, layout: Layout) {
                 check!(layout.size() >= LOG[k].requested && layout.size() <= LOG[k].granted, "C05: block released with a size outside [requested, granted]");
                 LOG[k].live = false;
                 NRELEASED += 1;
-                scrub(ptr.as_ptr(), LOG[k].granted);
                 std::alloc::dealloc(ptr.as_ptr(), Layout::from_size_align_unchecked(LOG[k].granted, LOG[k].align));
             }
             k += 1;
@@ -243,8 +224,7 @@ unsafe impl<const OFF: usize> Allocator for VAOff<OFF> {
                     check!(layout.size() == LOG[k].requested, "C05: block released with a size outside [requested, granted]");
                     LOG[k].live = false;
                     NRELEASED += 1;
-                    scrub(ptr.as_ptr(), LOG[k].granted);
-                    std::alloc::dealloc(ptr.as_ptr().sub(OFF), Layout::from_size_align_unchecked(LOG[k].granted + OFF, 64));
+                        std::alloc::dealloc(ptr.as_ptr().sub(OFF), Layout::from_size_align_unchecked(LOG[k].granted + OFF, 64));
                 }
                 k += 1;
             }
@@ -265,14 +245,18 @@ unsafe impl Allocator for VAStateful {
         unsafe { va_allocate::<0>(layout) }
     }
     unsafe fn deallocate(&self, ptr: NonNull<u8>, layout: Layout) {
-        unsafe { va_deallocate(ptr, layout) }
         // C05 "a returned block is never read or written afterwards": a stateful allocator may look at its own state
-        // AFTER it has released the block - the handle it was called through must not live inside that block (a copy
-        // of the allocator sits in every chunk header). The harnesses only ever create `VAStateful { id: 0 }`.
-        let id = self.id;
-        check!(id == 0, "C05: the allocator handle passed to deallocate was clobbered by the release (it lived inside the released block)");
+        // while and after it releases the block, so the handle it is called through must not live INSIDE that block
+        // (a copy of the allocator sits in every chunk header). Checked on addresses: measured, Kani 0.68 / CBMC 6.11
+        // do not flag a read through a pointer into a block released with std::alloc::dealloc (DESIGN.md 2.8), and
+        // poisoning the block instead costs 9 GB per release harness.
+        let me = self as *const Self as usize;
+        let lo = ptr.as_ptr() as usize;
+        check!(me + core::mem::size_of::<Self>() <= lo || me >= lo + layout.size(), "C05: the allocator handle passed to deallocate lives inside the block that is being released");
+        unsafe { va_deallocate(ptr, layout) }
     }
 }
+
 
 /// Over-aligned verification allocator: header alignment 32, header size 64.
 #[derive(Clone, Copy, Default)]
